@@ -663,6 +663,15 @@ func (x *Exec) loopSpecCtx(st *State, hdr *ssa.BasicBlock, phiVals map[*ssa.Phi]
 	names := x.paramNames(st, x.fx.contract)
 	sc := x.specCtx(st, st.heap, st.old, names)
 	sc.resolver = func(name string) (Value, bool) {
+		if name == "$rangelen" {
+			// length of the slice a range loop iterates over (fixed when the loop starts)
+			if iff, ok := hdr.Instrs[len(hdr.Instrs)-1].(*ssa.If); ok {
+				if b, ok := iff.Cond.(*ssa.BinOp); ok && b.Op == token.LSS {
+					return x.get(st, b.Y), true
+				}
+			}
+			return Value{}, false
+		}
 		if name == "$rangepos" {
 			for _, ins := range hdr.Instrs {
 				if nx, ok := ins.(*ssa.Next); ok {
@@ -716,6 +725,14 @@ func (x *Exec) lookupLocal(st *State, name string, at *ssa.BasicBlock) (Value, b
 			case *ssa.DebugRef:
 				if id, ok := v.Expr.(*ast.Ident); ok && id.Name == name && !v.IsAddr {
 					if _, isPhi := v.X.(*ssa.Phi); isPhi && v.X.(*ssa.Phi).Block() == at {
+						continue
+					}
+					if u, isLoad := v.X.(*ssa.UnOp); isLoad && u.Op == token.MUL {
+						if a, isAlloc := u.X.(*ssa.Alloc); isAlloc && spilledParam(a) {
+							continue // a read of a never-reassigned parameter: the parameter itself
+						}
+					}
+					if _, isParam := v.X.(*ssa.Parameter); isParam {
 						continue
 					}
 					best = v.X
